@@ -49,7 +49,7 @@ func TestVerifC13(t *testing.T) {
 			maxBlockSize = 1 << 26
 		}
 	}()
-	n := run.N(240, 5000)
+	n := run.N(400, 6000)
 	run.Cases("run", n, func(i int, rng *verifkit.Rand) {
 		if c13Dead {
 			c13Count(run, "cases_skipped_after_deadlock", 1)
